@@ -224,6 +224,7 @@ def run(ctx):
             if e1 != e2 or n1 != n2 or e1 == n1:
                 ctx.violation(f"C12:{label}:eq-not-symmetric", f"{x!r} == {y!r} is {e1}, reverse {e2}; != {n1}/{n2}", {**case, "sig_a": repr(sig_a), "sig_b": repr(sig_b)})
 
+    temperatures(ctx, env)
     levels(ctx, env)
     for e in ctx.known:
         if e.get("status") == "known":
@@ -231,6 +232,64 @@ def run(ctx):
     ctx.require("away_from_ties", 100)
     ctx.require("hash_checks", 5)
     ctx.require("pairs/M-M", 100)
+
+
+def temperatures(ctx, env):
+    """temperature scales are convertible units of one dimension too: coherence of the comparison
+    operators across K / °C / °F / R (with prefixes), judged by exact kelvin values"""
+    from . import c10
+
+    m, rng = env.m, ctx.rng
+    U, P = m.Unit._by_name, env.pools.prefixes
+    if not all(s in U for s in c10.SCALES):
+        return
+    Q = m.Quantity
+    n = 400 if ctx.tier == "quick" else 40000
+    prefix_names = [None, None, None, "kilo", "milli", "micro", "mega"]
+
+    def make():
+        scale, pfx = rng.choice(c10.SCALES), rng.choice(prefix_names)
+        mag = rng.choice([0, 1, -10, 100, -40, 37.5, 273.15, -273.15, 300, 5, -459.67, 491.67, rng.uniform(-500, 3000), rng.randint(-300, 1000)])
+        unit = U[scale] if pfx is None else P[pfx] * U[scale]
+        pv = Fraction(1) if pfx is None else oracle.prefix_value(P[pfx])
+        return Q(mag, unit), c10.to_kelvin(scale, oracle.F(mag) * pv)
+
+    for _ in range(n):
+        items = [make() for _ in range(rng.randint(2, 6))]
+        (a, ka), (b, kb) = items[0], items[1]
+        ctx.count("evaluations")
+        ctx.count("pairs/Q-Q/temperature_scales")
+        ctx.distinct(("temperature", str(a.unit), str(b.unit), ka < kb, a.magnitude < 0, b.magnitude < 0), a.unit is not b.unit)
+        case = {"a": repr(a), "b": repr(b), "kelvin": [float(ka), float(kb)]}
+        try:
+            t = {"eq": a == b, "ne": a != b, "lt": a < b, "le": a <= b, "gt": a > b, "ge": a >= b,
+                 "req": b == a, "rne": b != a, "rlt": b < a, "rle": b <= a, "rgt": b > a, "rge": b >= a}
+        except Exception as e:
+            ctx.violation(f"C12:temperature:comparison-raised:{type(e).__name__}", f"{a!r} vs {b!r}: {e}", case)
+            continue
+        tie = abs(ka - kb) <= max(abs(ka), abs(kb), Fraction(273)) * Fraction(1, 10**9)
+        if tie:
+            ctx.count("ties")
+            if t["lt"] and t["gt"]:
+                ctx.violation("C12:both-less-and-greater", f"{a!r} vs {b!r}: {t}", case)
+            continue
+        ctx.count("away_from_ties")
+        o = -1 if ka < kb else 1
+        want = {"eq": False, "ne": True, "lt": o < 0, "le": o < 0, "gt": o > 0, "ge": o > 0,
+                "req": False, "rne": True, "rlt": o > 0, "rle": o > 0, "rgt": o < 0, "rge": o < 0}
+        if any(t[k] is not v for k, v in want.items()):
+            ctx.violation("C12:order-disagrees-with-physical-values", f"temperatures {a!r} vs {b!r}: got {t}, kelvin values {float(ka)!r} vs {float(kb)!r}", case)
+        try:
+            s_ = sorted(q for q, _ in items)
+        except Exception as e:
+            ctx.violation(f"C12:temperature:sorted-raised:{type(e).__name__}", f"{[repr(q) for q, _ in items]}: {e}", case)
+            continue
+        ctx.count("sorted_lists")
+        kel = {id(q): k for q, k in items}
+        for x, y in zip(s_, s_[1:]):
+            if kel[id(x)] - kel[id(y)] > max(abs(kel[id(x)]), Fraction(273)) * Fraction(1, 10**9):
+                ctx.violation("C12:sorted-not-physical", f"sorted() put {x!r} before {y!r} (kelvin {float(kel[id(x)])!r} > {float(kel[id(y)])!r})", {"items": [repr(q) for q, _ in items]})
+                break
 
 
 def levels(ctx, env):
